@@ -245,6 +245,11 @@ impl WriteSource for pr::ExprKind {
                 }
                 for param in &c.named_params {
                     r += opt.consume(&write_ident_part(&param.name))?;
+                    // (the type of a parameter with a default value: `a <int>:5`)
+                    if let Some(ty) = &param.ty {
+                        let ty = ty.write_between(" <", ">", opt.clone())?;
+                        r += opt.consume(&ty)?;
+                    }
                     r += opt.consume(":")?;
                     // a default value is a plain expression: calls and lambdas need parentheses
                     let mut opt_default = opt.clone();
